@@ -352,6 +352,10 @@ func runF(op string, in M) (M, M) {
 			if curve != "ed25519" {
 				vCatch(func() { parent.DeriveChild(uint32(pi)) })
 			}
+			// ... nor must derivations that are refused (a hardened child of the public copy; for ed25519 any child of it):
+			// a call that ends in an error leaves nothing behind in the parent or in what the parent shares with its copies
+			vCatch(func() { parent.Public().DeriveChild(uint32(pi)) })
+			vCatch(func() { parent.Public().DeriveChild(uint32(pi) | slip10.Hardened) })
 		}
 		if curve == "toy" {
 			tc.calls, tc.pos = nil, 0
